@@ -7,7 +7,7 @@ PLAN = dict(
           "fields are set, verified directly or after write+read. grid: every single fault per version, every banned header in 3 spellings, look-alike "
           "harmless names, status 100..599 x 7 freshness variants. Oracle: Verify verdict == refPolicy(parameters) in both directions. Non-trivial: "
           "all-good cases, exactly one violated condition, or a boundary instant."),
-    assumptions=TRUSTED + ["'status understood by the cache' = known to net/http (the code's documented notion)",
+    assumptions=TRUSTED + ["Cache-Control values containing quoted-string arguments are read twice, cut at every comma (the repository's documented simplification) and with RFC 7230 quoted-strings; the storable-by-a-shared-cache condition is judged only where both readings give the same verdict, the other cases are skipped and counted as cache-control-reading-ambiguous", "'status understood by the cache' = known to net/http (the code's documented notion)",
                            "no quoted Cache-Control arguments containing commas, no no-cache=\"field\" lists (documented TODOs in the source)",
                            "origins differ unambiguously (no default-port or host-case spellings)",
                            "Content-Type / Expires are generated either absent or non-empty"],
